@@ -1846,3 +1846,60 @@ func c05r13(rc *core.RC) {
 		rc.Unknown("decoder/mid-container-skippers", token.NoPos, "found %d calls of skipObject/skipArray outside the skippers (confirmed: 6)", n)
 	}
 }
+
+// ---- C05.R14 unquoteBytes says yes only behind its own scan for control characters ----
+
+// For a TextUnmarshaler destination the skippers only find the end of the string literal; unquoteBytes is what
+// looks at its bytes. Its scan loop stops at a backslash, a quote, a byte below 0x20 and malformed UTF-8. Every
+// `return …, true` of the function has to come behind a loop that makes the control-character test: a shortcut in
+// front of it ("no backslash and valid UTF-8: nothing to do") hands raw tabs and line feeds to UnmarshalText, which
+// encoding/json rejects.
+func c05r14(rc *core.RC) {
+	p := rc.P
+	fd := p.Func("decoder", "unquoteBytes")
+	if fd == nil || fd.Body == nil {
+		rc.Unknown("decoder.unquoteBytes", token.NoPos, "function not found")
+		return
+	}
+	info := p.Info(fd)
+	fn := p.FuncName(fd)
+	rc.Touch(fn)
+	// the first loop that compares a byte with ' ' (or 0x20)
+	firstScan := token.NoPos
+	ast.Inspect(fd.Body, func(m ast.Node) bool {
+		loop, ok := m.(*ast.ForStmt)
+		if !ok || firstScan.IsValid() {
+			return true
+		}
+		ast.Inspect(loop.Body, func(k ast.Node) bool {
+			if be, isBin := k.(*ast.BinaryExpr); isBin && be.Op == token.LSS {
+				if v, isC := core.ConstInt(info, be.Y); isC && v == ' ' {
+					firstScan = loop.Pos()
+				}
+			}
+			return true
+		})
+		return true
+	})
+	if !firstScan.IsValid() {
+		rc.Unknown(fn+"/control-character-scan", fd.Pos(), "no loop that tests bytes against 0x20 found")
+		return
+	}
+	n := 0
+	ast.Inspect(fd.Body, func(m ast.Node) bool {
+		ret, ok := m.(*ast.ReturnStmt)
+		if !ok || len(ret.Results) != 2 {
+			return true
+		}
+		if v := core.ConstValue(info, ret.Results[1]); v == nil || v.String() != "true" {
+			return true
+		}
+		n++
+		key := fmt.Sprintf("%s/accepting-return#%d behind-the-control-character-scan", fn, n)
+		rc.Check(ret.Pos() > firstScan, key, ret.Pos(), "the function answers ok only behind the loop that stops at bytes below 0x20: an accepting return in front of it lets raw control characters through to UnmarshalText")
+		return true
+	})
+	if n < 1 {
+		rc.Unknown(fn+"/accepting-returns", fd.Pos(), "no return with ok = true found")
+	}
+}
